@@ -869,6 +869,7 @@ func (it *Interp) beginPath() {
 	it.fpDiv = nil
 	it.fpLazy = nil
 	it.digitSum = nil
+	it.poolPut = nil
 	it.fmtTimeVals = nil
 }
 
